@@ -9,7 +9,7 @@ from harness import lie
 def impl(case):
     if case["op"] == "classify":
         from harness import cls
-        out, _, _ = cls.classify(case["gens"])
+        out, _, _ = cls.classify(case["gens"], trace=True)
         return out
     if case["op"] == "history":
         from harness import cls
@@ -54,33 +54,50 @@ def ltxt(legs):
     return ",".join(map(str, legs)) if legs else "e"
 
 
-def signature(morphs):
-    """known-finding signature: a canonical single leg is the product of other single legs of its graph, and every
-    such relation needs at least five other legs.  (Relations through three other legs are detected by the
-    unchanged library's check_dependency_one_leg; if one of those slips through it is a different defect.)"""
+# the steps of the unchanged pipeline that attach a vertex to the centre WITHOUT running check_dependency_one_leg first
+# (morph_factory.py: append_to_two_center, and the centre branch of step VI); a dependent single leg that comes in
+# through any other step is not the known defect
+UNCHECKED_SITES = {"append_to_two_center", "_append_long_leg_only_last_lit"}
+
+
+def signature(morphs, attach_sites=None):
+    """known-finding signature: a canonical single leg is the product of other single legs of its graph, AND the unchanged
+    library could not have seen it: either every such relation needs at least five other legs (check_dependency_one_leg only
+    searches three-term relations), or the relation has three other legs and the one of its four legs that was attached last came in through a step
+    that does not run the check (UNCHECKED_SITES; call sites observed by cls.attach_trace).  A three-leg relation that
+    came in through a checked step (e.g. _append_fast) is a different defect."""
     import itertools
     found = False
     for m in morphs:
         singles = [leg[0] for leg in m["legs"][1:] if len(leg) == 1]
         vecs = [G.vec(s) for s in singles]
         for i, v in enumerate(vecs):
-            others = [w for j, w in enumerate(vecs) if j != i]
-            if not G.in_span(v, others):
+            others = [(j, w) for j, w in enumerate(vecs) if j != i]
+            if not G.in_span(v, [w for _, w in others]):
                 continue
-            # minimal number of other single legs whose product is this leg
+            # a smallest set of other single legs whose product is this leg
             best = None
             for k in range(1, len(others) + 1):
                 for sub in itertools.combinations(others, k):
                     x = 0
-                    for w in sub:
+                    for _, w in sub:
                         x ^= w
                     if x == v:
-                        best = k; break
+                        best = [singles[i]] + [singles[j] for j, _ in sub]; break
                 if best:
                     break
-            if best is not None and best < 5:
-                return None
-            found = True
+            if best is None:
+                continue
+            if len(best) - 1 >= 5:
+                found = True
+                continue
+            # the leg of the relation that was attached last is the one a dependency test would have had to stop
+            tagged = [str((attach_sites or {}).get(x, "-1:?")).split(">")[0].split(":", 1) for x in best]
+            last_site = max(tagged, key=lambda t: int(t[0]))[1] if tagged else "?"
+            if last_site in UNCHECKED_SITES:
+                found = True
+                continue
+            return None
     return "single-leg-in-span-of-single-legs" if found else None
 
 
@@ -180,7 +197,7 @@ def judge_collections(ck, cases, res):
         if any(s > 3 for s, _, _ in comps):
             nt.add((n, tuple(sorted(set(g)))))
         if why:
-            key = signature(r["morphs"])
+            key = signature(r["morphs"], r.get("attach_sites"))
             ck.fail(key, "n=%d generators %s: %s" % (n, g, why),
                     {"n": n, "gens": g, "reported": r["algebra"], "closure_invariants": a, "why": why, "kind": kind,
                      "legs": [m["legs"] for m in r["morphs"]]})
